@@ -480,7 +480,7 @@ def _val(v):
     return v.get("name")
 
 
-def extract_cex(failed, harness, enforce):
+def extract_cex(failed, harness, enforce, contract_files=()):
     """harness-local variables, actual parameters of the checked call, dynamic objects (latest values before the call)"""
     trace = failed.get("trace", [])
     cex = {"harness_vars": {}, "args": {}, "objects": {}}
@@ -512,7 +512,8 @@ def extract_cex(failed, harness, enforce):
                 cex["objects"].setdefault(m.group(1), {})[int(m.group(2))] = val
             else:
                 cex["objects"].setdefault(lhs, {})["_"] = val
-        elif fn == harness and not lhs.startswith("__") and not s.get("hidden"):
+        elif (fn == harness or os.path.basename(s.get("sourceLocation", {}).get("file", "")) in contract_files) \
+                and not lhs.startswith("__") and not s.get("hidden"):
             cex["harness_vars"][lhs] = val
     objs = {}
     for k, d in cex["objects"].items():
@@ -548,7 +549,7 @@ def cex_text(cex):
     lines = []
     for group in ("harness_vars", "args"):
         for k, v in cex[group].items():
-            k = re.sub(r'[^A-Za-z0-9_\[\].]', '_', k)
+            k = ("arg." if group == "args" else "") + re.sub(r'[^A-Za-z0-9_\[\].]', '_', k)
             if isinstance(v, list):
                 ints = [_to_int(x) for x in v]
                 if all(x is not None for x in ints):
@@ -709,7 +710,7 @@ def check_property(prop, tier="quick", repo=None, only_unit=None, only_target=No
         u = umap[r.unit]
         t = next(x for x in u.cfg["targets"] if x["id"] == r.target)
         label = "%s/%s[%s]" % (r.unit, r.target, r.variant)
-        if r.undecided and not (r.variant == "main" and r.failed):
+        if r.undecided and not (r.variant == "main" and r.failed) and not r.variant.startswith("twin:"):
             undecided.append("%s: %s" % (label, r.undecided))
             continue
         if r.variant == "reach":
@@ -726,7 +727,9 @@ def check_property(prop, tier="quick", repo=None, only_unit=None, only_target=No
         if r.variant.startswith("twin:"):
             tw = next(x for x in t["twins"] if x["define"] == r.variant[5:])
             hit = [f for f in r.failed if re.search(tw["expect"], f["name"] + ": " + f["description"])]
-            if not hit:
+            if r.undecided and not hit:
+                undecided.append("%s: %s" % (label, r.undecided))
+            elif not hit:
                 undecided.append("%s: must-fail twin did not fail at /%s/ (the check cannot see what it claims to see)"
                                  % (label, tw["expect"]))
             per_target.append({"target": label, "must_fail_obligation": hit[0]["name"] if hit else None,
@@ -750,7 +753,9 @@ def check_property(prop, tier="quick", repo=None, only_unit=None, only_target=No
                            "backend": "cbmc 6.11 SAT (" + _backend(t, u) + ")", "cmd": r.cmd})
         for f in r.failed:
             k = known_match(known, prop, r.unit, r.target, f)
-            cex = extract_cex(f, t["harness"], t.get("enforce"))
+            csrcs = t.get("contract", u.cfg.get("contract", ["contract.c"]))
+            cex = extract_cex(f, t["harness"], t.get("enforce"),
+                              [os.path.basename(x) for x in ([csrcs] if isinstance(csrcs, str) else csrcs)])
             os.makedirs(REPLAYS, exist_ok=True)
             base = os.path.join(REPLAYS, "%s-%s-%s-%s" % (prop, r.unit, r.target,
                                                          re.sub(r'\W', '_', f["name"])))
